@@ -139,8 +139,20 @@ def migen_features(e, out=None):
         for o in e.operands:
             migen_features(o, out)
     elif isinstance(e, _Slice):
-        nb, sg = value_bits_sign(e.value)
-        if sg and e.start == 0 and e.stop == nb:
+        # where the back end's own slice lowering (through Cat / Replicate / nested slices) ends up
+        from litex.gen.fhdl.verilog import _lower_slice_cat, _lower_slice_replicate
+        node, start, length = e, 0, e.stop - e.start
+        while isinstance(node, _Slice):
+            start += node.start
+            node = node.value
+            while True:
+                node, start = _lower_slice_cat(node, start, length)
+                former = node
+                node, start = _lower_slice_replicate(node, start, length)
+                if node is former:
+                    break
+        nb, sg = value_bits_sign(node)
+        if sg and start == 0 and nb == length:
             out.add("whole-signed-operand-slice")
         migen_features(e.value, out)
     elif isinstance(e, Cat):
@@ -636,7 +648,7 @@ def topo_items(items):
     return [comb[i] for i in order] + rest
 
 
-def build_trace(build, stim_seed, cycles, regular_comb=True, label=None, periods=None):
+def build_trace(build, stim_seed, cycles, regular_comb=True, label=None, reset_memories=False):
     """build() -> (module or fragment, clocks dict name->period, info) - called twice: one instance goes through the real
     convert(), the other through the real Simulator; signals of the two instances correspond by creation order.
     -> trace record for specs/vlog/VlogTrace.tla"""
@@ -668,6 +680,15 @@ def build_trace(build, stim_seed, cycles, regular_comb=True, label=None, periods
     extra = [s for s in sa if s in driven]
     rng = random.Random("%s/ios" % stim_seed)
     ios |= set(rng.sample(extra, min(len(extra), max(1, len(extra) // 3)))) if extra else set()
+    # ---- structural features of the FHDL memories (only used in the signature of a rejected trace)
+    from migen.fhdl.specials import WRITE_FIRST, NO_CHANGE
+    mfeat = set()
+    for mem in mema:
+        clocks_ = {p.clock.cd for p in mem.ports}
+        if len(clocks_) > 1 and any(p.mode == WRITE_FIRST and not p.async_read for p in mem.ports):
+            mfeat.add("dual-clock-write-first")
+        if any(p.mode == NO_CHANGE and not p.async_read and p.we is not None and len(p.we) > 1 for p in mem.ports):
+            mfeat.add("no-change-granular-we")
     # ---- the back end
     out = convert(fa, ios=ios, name="top", regular_comb=regular_comb)
     mod = vp.parse(out.main_source)
@@ -697,7 +718,7 @@ def build_trace(build, stim_seed, cycles, regular_comb=True, label=None, periods
                     images[mem] = [int(x, 16) for x in out.data_files[fn].split()]
                 else:
                     raise Unsupported("initial statement %r" % st.get("n"))
-    inits = {"_": 0}
+    inits = {}
     for n, e in ini.items():
         v = const_value(e)
         if v is None:
@@ -736,7 +757,9 @@ def build_trace(build, stim_seed, cycles, regular_comb=True, label=None, periods
             else:
                 for s in sigs:
                     if s in rsts:
-                        v = 1 if (cyc == 1 or r.random() < 0.06) else 0
+                        # the reference simulator resets memory words like registers (MemoryToArray + insert_resets), the
+                        # Verilog template does not: designs with memories are only reset by the dedicated probe
+                        v = 1 if (cyc == 1 or r.random() < 0.06) and (not mema or reset_memories) else 0
                     elif hold[s] > 0:
                         hold[s] -= 1
                         continue
@@ -792,7 +815,14 @@ def build_trace(build, stim_seed, cycles, regular_comb=True, label=None, periods
                 raise Unsupported("signals change in a tick without a rising clock edge")
             continue
         ev.append({"r": rising, "v": dv, "m": dm})
-    return {"label": label, "D": D, "items": vp.strip_lex(topo_items(items)), "ini": inits, "ins": ins, "cmp": cmp_names,
+    pini = {}
+    for prt in mod["ports"]:
+        if prt["dir"] == "output" and prt["t"] == "reg":
+            for s_, n_ in name_a.items():
+                if n_ == prt["n"] and s_.reset.value != 0:
+                    pini[n_] = s_.reset.value
+    return {"label": label, "D": D, "items": vp.strip_lex(topo_items(items)), "ini": inits, "pini": pini, "ins": ins, "cmp": cmp_names,
+            "memfeat": "+".join(sorted(mfeat)), "memories": len(mema),
             "v0": v0, "ev": ev, "regular_comb": bool(regular_comb), "verilog": out.main_source}
 
 
@@ -801,7 +831,7 @@ _ARITH = ["+", "-", "*", "&", "|", "^"]
 _REL = ["<", "<=", "==", "!=", ">", ">="]
 
 
-def gen_fragment(seed):
+def gen_fragment(seed, comb_cat=True, mixed_arr=False):
     """a small FHDL design as plain data (so that a replay can rebuild it): 1-6 state/combinational signals of width
     1-6 plus inputs, comb and sync statements with nested If / Case / Array, slices and Cat on the left, 1-2 clock
     domains with / without reset.  Expressions come from the sub-grammar on which the reference simulator and the
@@ -884,21 +914,67 @@ def gen_fragment(seed):
             return ["b", ">>>", leaf(upto, sig_only=True) or ["c", 5], amt]
         return ["m", cond(upto), arith(upto, d - 1), arith(upto, d - 1)]
 
+    class Invalid(Exception):
+        pass
+
+    def typ(e):
+        """(signed-typed, leaf-like) of a generated expression; raises Invalid where an unsigned-typed operator node
+        would meet a signed operand: the back end then wraps it in $signed({1'd0, ...}), which makes it a self-determined
+        operand that loses the bits FHDL keeps (layer 1: intermediate overflow / negative intermediates)"""
+        k = e[0]
+        if k == "s":
+            return sigs[e[1]]["s"], True
+        if k in ("c", "sl", "cat", "rep"):
+            return 0, True
+        if k == "arr":
+            return max(typ(x)[0] for x in e[1]), True
+        if k == "u":
+            sg, lf = typ(e[2])
+            if e[1] == "-":
+                if not sg and not lf:
+                    raise Invalid()
+                return 1, False
+            return sg, False
+        if k == "b":
+            if e[1] in _REL:
+                return 0, False
+            a, b = typ(e[2]), typ(e[3])
+            if e[1] in ("<<<", ">>>"):
+                return a[0], False
+            if a[0] != b[0] and not (b if a[0] else a)[1]:
+                raise Invalid()
+            return max(a[0], b[0]), False
+        if k == "m":
+            typ(e[1])
+            a, b = typ(e[2]), typ(e[3])
+            if a[0] != b[0] and not (b if a[0] else a)[1]:
+                raise Invalid()
+            return max(a[0], b[0]), False
+        raise ValueError(e)
+
     def rhs(upto):
         k = r.random()
         if k < 0.6:
-            return arith(upto, 2)
+            for _ in range(30):
+                e = arith(upto, 2)
+                try:
+                    typ(e)
+                    return e
+                except Invalid:
+                    continue
+            return uleaf(upto)
         if k < 0.75:
             return cond(upto)
         if k < 0.87:
             sg = r.random() < 0.2
-            ch = [i for i in readable(upto) if bool(sigs[i]["s"]) == sg]
+            # (an Array over signed AND unsigned elements is a finding of its own: only on request)
+            ch = [i for i in readable(upto) if bool(sigs[i]["s"]) == sg or mixed_arr]
             key = leaf(upto, unsigned=True, sig_only=True)
             if len(ch) >= 2 and key:
                 return ["arr", [["s", i] for i in r.sample(ch, r.randint(2, min(4, len(ch))))], key]
         return uleaf(upto)
 
-    def lhs(targets):
+    def lhs(targets, cat_ok=True):
         k = r.random()
         i = r.choice(targets)
         if k < 0.55:
@@ -906,7 +982,7 @@ def gen_fragment(seed):
         if k < 0.75:
             lo = r.randrange(sigs[i]["w"])
             return ["sl", i, lo, r.randint(lo + 1, sigs[i]["w"])]
-        if k < 0.9 and len(targets) >= 2:
+        if k < 0.9 and len(targets) >= 2 and cat_ok:
             parts = []
             for j in r.sample(targets, r.randint(2, min(3, len(targets)))):
                 if r.random() < 0.6:
@@ -919,13 +995,12 @@ def gen_fragment(seed):
             return ["arr", r.sample(targets, r.randint(2, min(3, len(targets)))), None]
         return ["s", i]
 
-    def stmts(targets, upto_of, depth, n):
+    def stmts(targets, upto, depth, n, cat_ok=True):
+        # every expression below reads comb signals with an index < upto only; every target has an index >= upto
         out = []
         for _ in range(n):
             k = r.random()
-            l = lhs(targets)
-            used = [l[1]] if l[0] in ("s", "sl") else ([p[1] for p in l[1]] if l[0] == "cat" else list(l[1]))
-            upto = min(upto_of(i) for i in used)
+            l = lhs(targets, cat_ok)
             if l[0] == "arr":
                 key = leaf(upto, unsigned=True, sig_only=True)
                 if key is None:
@@ -935,8 +1010,8 @@ def gen_fragment(seed):
             if depth == 0 or k < 0.45:
                 out.append(["=", l, rhs(upto)])
             elif k < 0.8:
-                out.append(["if", cond(upto), stmts(targets, upto_of, depth - 1, r.randint(1, 2)),
-                            stmts(targets, upto_of, depth - 1, r.randint(0, 2))])
+                out.append(["if", cond(upto), stmts(targets, upto, depth - 1, r.randint(1, 2), cat_ok),
+                            stmts(targets, upto, depth - 1, r.randint(0, 2), cat_ok)])
             else:
                 sel = leaf(upto, unsigned=True, sig_only=True)
                 if sel is None:
@@ -945,21 +1020,22 @@ def gen_fragment(seed):
                 top = (1 << sigs[sel[1]]["w"]) - 1
                 labels = sorted(r.sample(range(0, top + 1), min(top + 1, r.randint(1, 3))))
                 r.shuffle(labels)
-                out.append(["case", sel, [[k2, stmts(targets, upto_of, depth - 1, r.randint(1, 2))] for k2 in labels],
-                            stmts(targets, upto_of, depth - 1, 1) if r.random() < 0.6 else None])
+                out.append(["case", sel, [[k2, stmts(targets, upto, depth - 1, r.randint(1, 2), cat_ok)] for k2 in labels],
+                            stmts(targets, upto, depth - 1, 1, cat_ok) if r.random() < 0.6 else None])
         return out
 
     comb_t = [i for i in idx if sigs[i]["role"] == "comb"]
     spec = {"sig": sigs, "dom": doms, "comb": [], "sync": [[], []]}
-    if comb_t:
-        spec["comb"] = stmts(comb_t, lambda i: i, 2, r.randint(1, 2 + len(comb_t)))
-        # every comb signal gets at least one driver so that it is not mistaken for an input
-        for i in comb_t:
-            spec["comb"].append(["=", ["s", i], rhs(i)]) if r.random() < 0.3 or not _assigns(spec["comb"], i) else None
+    for _ in range(r.randint(1, 2 + len(comb_t)) if comb_t else 0):
+        k = r.choice(comb_t)                     # the lowest target of this statement tree
+        spec["comb"] += stmts([i for i in comb_t if i >= k], k, 2, 1, comb_cat)
+    for i in comb_t:                             # every comb signal has a driver (else it would be an input)
+        if not _assigns(spec["comb"], i):
+            spec["comb"].append(["=", ["s", i], rhs(i)])
     for d in range(ndom):
         tg = [i for i in idx if sigs[i]["role"] == "sync%d" % d]
         if tg:
-            spec["sync"][d] = stmts(tg, lambda i: len(sigs), 2, r.randint(1, 2 + len(tg)))
+            spec["sync"][d] = stmts(tg, len(sigs), 2, r.randint(1, 2 + len(tg)))
             for i in tg:
                 if not _assigns(spec["sync"][d], i):
                     spec["sync"][d].append(["=", ["s", i], rhs(len(sigs))])
@@ -1056,13 +1132,286 @@ def fragment_builder(spec):
     return build
 
 
-def record_fragment(job):
-    seed, cycles, regular_comb = job
-    spec = gen_fragment(seed)
+class _Timeout(Exception):
+    pass
+
+
+def _alarm(signum, frame):
+    raise _Timeout()
+
+
+def with_timeout(fn, seconds):
+    """run fn() under SIGALRM: a design whose combinational logic oscillates makes the reference simulator spin"""
+    import signal
+    old = signal.signal(signal.SIGALRM, _alarm)
+    signal.alarm(seconds)
     try:
-        tr = build_trace(fragment_builder(spec), seed, cycles, regular_comb, label="fragment %s" % seed)
+        return fn()
+    finally:
+        signal.alarm(0)
+        signal.signal(signal.SIGALRM, old)
+
+
+def record_fragment(job):
+    seed, cycles, regular_comb, comb_cat = job[:4]
+    mixed_arr = bool(job[4]) if len(job) > 4 else False
+    spec = gen_fragment(seed, comb_cat, mixed_arr)
+    try:
+        tr = with_timeout(lambda: build_trace(fragment_builder(spec), seed, cycles, regular_comb, label="fragment %s" % seed), 60)
+    except Unsupported as ex:
+        return {"skip": str(ex), "spec": spec}
+    except _Timeout:
+        return {"skip": "the reference simulator did not finish within 60 s", "spec": spec}
+    tr["spec"] = spec
+    tr["seed"] = seed
+    tr["comb_cat"] = comb_cat
+    tr["mixed_arr"] = mixed_arr
+    if _has_mixed_array(spec, spec["sig"]):
+        tr["memfeat"] = "mixed-sign-array"
+    return tr
+
+
+def record_mixed_array_probe(seed):
+    """one fixed design: t = Array([u, s])[k] with u unsigned and s signed of the same width, t wider"""
+    def build():
+        from migen import Module, Signal, Array, ClockDomain
+        m = Module()
+        m.clock_domains += ClockDomain("sys", reset_less=True)
+        u = Signal(3, name_override="u")
+        s = Signal((3, True), name_override="s")
+        k = Signal(1, name_override="k")
+        t = Signal(6, name_override="t")
+        q = Signal(6, name_override="q")
+        m.comb += t.eq(Array([u, s])[k])
+        m.sync += q.eq(t)
+        return m, {"sys": 10}
+    tr = build_trace(build, "%s/arrprobe" % seed, 40, True, label="mixed-signedness Array probe")
+    tr["memfeat"] = "mixed-sign-array"
+    tr["seed"] = seed
+    tr["spec"] = {"dom": [["sys", 0]]}
+    tr["comb_cat"] = tr["mixed_arr"] = False
+    return tr
+
+
+def _has_mixed_array(x, sigs):
+    if isinstance(x, list):
+        if len(x) == 3 and x[0] == "arr" and isinstance(x[1], list) and x[1] and isinstance(x[1][0], list):
+            sg = {sigs[c[1]]["s"] for c in x[1] if c[0] == "s"}
+            if len(sg) > 1:
+                return True
+        return any(_has_mixed_array(y, sigs) for y in x)
+    if isinstance(x, dict):
+        return any(_has_mixed_array(y, sigs) for y in x.values())
+    return False
+
+
+# ------------------------------------------------------------------------------------------ layer 3: memories
+def gen_memory(seed):
+    """a design around one Memory as plain data: every port mode / granularity / init the template of
+    litex/gen/fhdl/memory.py distinguishes.  Depths are powers of two (an address beyond the depth is undefined in
+    Verilog and clamped by the simulator)."""
+    r = random.Random("%s/mem" % seed)
+    w = r.choice([4, 4, 6, 8])
+    d = r.choice([2, 4, 8])
+    k = r.random()
+    init = None if k < 0.25 else [r.randrange(1 << w) for _ in range(d if k < 0.7 else r.randint(1, d))]
+    two_clocks = r.random() < 0.2
+    ports = []
+    for p in range(r.randint(1, 2)):
+        wr = r.random() < (0.8 if p == 0 else 0.5)
+        asy = r.random() < 0.2
+        grans = [0] + [g for g in (w // 2, w // 4) if g >= 1 and w % g == 0]
+        ports.append({"wr": int(wr), "async": int(asy), "re": int(not asy and r.random() < 0.35),
+                      "gran": r.choice(grans) if wr else 0,
+                      # (a read-only NO_CHANGE port makes the back end raise TypeError: not generated, noted in the evidence)
+                      "mode": r.choice(["wf", "rf", "nc"] if wr else ["wf", "rf"]),
+                      "cd": 1 if (two_clocks and p == 1) else 0})
+    return {"w": w, "d": d, "init": init, "ports": ports, "two_clocks": int(two_clocks),
+            "outreg": int(r.random() < 0.3)}
+
+
+def memory_builder(spec):
+    def build():
+        from migen import Module, Signal, ClockDomain, Memory
+        from migen.fhdl.specials import WRITE_FIRST, READ_FIRST, NO_CHANGE
+        m = Module()
+        cds = [ClockDomain("sys", reset_less=True)]
+        if spec["two_clocks"]:
+            cds.append(ClockDomain("b", reset_less=True))
+        for cd in cds:
+            m.clock_domains += cd
+        mem = Memory(spec["w"], spec["d"], init=spec["init"], name="mem")
+        m.specials += mem
+        modes = {"wf": WRITE_FIRST, "rf": READ_FIRST, "nc": NO_CHANGE}
+        for i, p in enumerate(spec["ports"]):
+            port = mem.get_port(write_capable=bool(p["wr"]), async_read=bool(p["async"]), has_re=bool(p["re"]),
+                                we_granularity=p["gran"], mode=modes[p["mode"]], clock_domain=cds[p["cd"]].name)
+            m.specials += port
+            if spec["outreg"] and i == 0:
+                q = Signal(spec["w"], name_override="q")
+                m.sync += q.eq(port.dat_r)
+        return m, {cd.name: {"sys": 10, "b": 14}[cd.name] for cd in cds}
+    return build
+
+
+def record_memory(job):
+    seed, cycles = job
+    spec = gen_memory(seed)
+    try:
+        tr = with_timeout(lambda: build_trace(memory_builder(spec), seed, cycles, True, label="memory %s" % seed), 60)
     except Unsupported as ex:
         return {"skip": str(ex), "spec": spec}
     tr["spec"] = spec
+    tr["seed"] = seed
+    return tr
+
+
+# ------------------------------------------------------------------------------------------ layer 3: corpus of real cores
+def _sys(m, rst=True):
+    from migen import ClockDomain
+    cd = ClockDomain("sys", reset_less=not rst)
+    m.clock_domains += cd
+    return m
+
+
+def corpus():
+    """name -> build(): real LiteX blocks at small parameters (every signal at most 30 bits wide).  All signals nothing
+    drives become inputs and get random stimuli: C01 compares two semantics of the same netlist, no protocol needed."""
+    from migen import Module
+
+    def top(make, rst=True):
+        def build():
+            m = Module()
+            _sys(m, rst)
+            m.submodules.dut = make()
+            return m, {"sys": 10}
+        return build
+
+    def stream_buffer():
+        from litex.soc.interconnect import stream
+        return stream.Buffer([("data", 8)])
+
+    def stream_buffer_pr():
+        from litex.soc.interconnect import stream
+        return stream.Buffer([("data", 6)], pipe_valid=True, pipe_ready=True)
+
+    def conv_up():
+        from litex.soc.interconnect import stream
+        return stream.Converter(8, 16)
+
+    def conv_down():
+        from litex.soc.interconnect import stream
+        return stream.Converter(16, 8, reverse=True)
+
+    def gearbox():
+        from litex.soc.interconnect import stream
+        return stream.Gearbox(8, 6)
+
+    def syncfifo():
+        from litex.soc.interconnect import stream
+        return stream.SyncFIFO([("data", 8)], 4, buffered=True)
+
+    def syncfifo_nb():
+        from litex.soc.interconnect import stream
+        return stream.SyncFIFO([("data", 5)], 2, buffered=False)
+
+    def wb_down():
+        from litex.soc.interconnect import wishbone
+        return wishbone.DownConverter(wishbone.Interface(data_width=16, adr_width=8), wishbone.Interface(data_width=8, adr_width=9))
+
+    def wb_sram():
+        from litex.soc.interconnect import wishbone
+        return wishbone.SRAM(32, init=[0x1234, 0xbeef, 0x55aa], bus=wishbone.Interface(data_width=16, adr_width=8))
+
+    def csrbank():
+        from litex.soc.interconnect import csr_bus
+        from litex.soc.interconnect.csr import CSRStorage, CSRStatus, CSR
+        csrs = [CSRStorage(8, name="a", reset=0x5a), CSRStatus(12, name="b"), CSR(4, name="c"), CSRStorage(20, name="d")]
+        return csr_bus.CSRBank(csrs, address=0, bus=csr_bus.Interface(data_width=8, address_width=14))
+
+    def eventmanager():
+        from litex.soc.interconnect.csr_eventmanager import EventManager, EventSourcePulse, EventSourceProcess, EventSourceLevel
+        ev = EventManager()
+        ev.p = EventSourcePulse(name="p")
+        ev.f = EventSourceProcess(name="f", edge="falling")
+        ev.r = EventSourceProcess(name="r", edge="rising")
+        ev.l = EventSourceLevel(name="l")
+        ev.finalize()
+        return ev
+
+    def waittimer():
+        from litex.gen.genlib.misc import WaitTimer
+        return WaitTimer(11)
+
+    def enc8b10b():
+        from litex.soc.cores.code_8b10b import Encoder
+        return Encoder(nwords=1)
+
+    def dec8b10b():
+        from litex.soc.cores.code_8b10b import Decoder
+        return Decoder()
+
+    def ecc_enc():
+        from litex.soc.cores.ecc import ECCEncoder
+        return ECCEncoder(4)
+
+    def ecc_dec():
+        from litex.soc.cores.ecc import ECCDecoder
+        return ECCDecoder(4)
+
+    def asyncfifo():
+        def build():
+            from migen import ClockDomain
+            from litex.soc.interconnect import stream
+            m = Module()
+            m.clock_domains += ClockDomain("sys")
+            m.clock_domains += ClockDomain("b")
+            f = stream.AsyncFIFO([("data", 4)], 4)
+            from migen.fhdl.decorators import ClockDomainsRenamer
+            m.submodules.dut = ClockDomainsRenamer({"write": "sys", "read": "b"})(f)
+            return m, {"sys": 10, "b": 14}
+        return build
+
+    return {
+        "stream.Buffer": top(stream_buffer), "stream.Buffer(pipe_ready)": top(stream_buffer_pr),
+        "stream.Converter(8,16)": top(conv_up), "stream.Converter(16,8,reverse)": top(conv_down),
+        "stream.Gearbox(8,6)": top(gearbox), "stream.SyncFIFO(4,buffered)": top(syncfifo), "stream.SyncFIFO(2)": top(syncfifo_nb),
+        "wishbone.DownConverter(16,8)": top(wb_down), "wishbone.SRAM(16bit)": top(wb_sram),
+        "csr_bus.CSRBank": top(csrbank), "EventManager": top(eventmanager), "WaitTimer(11)": top(waittimer),
+        "code_8b10b.Encoder": top(enc8b10b), "code_8b10b.Decoder": top(dec8b10b),
+        "ECCEncoder(4)": top(ecc_enc, rst=False), "ECCDecoder(4)": top(ecc_dec, rst=False),
+        "stream.AsyncFIFO(4)": asyncfifo(),
+    }
+
+
+QUICK_CORPUS = ["stream.Buffer", "stream.Converter(8,16)", "stream.SyncFIFO(4,buffered)", "wishbone.DownConverter(16,8)",
+                "csr_bus.CSRBank", "EventManager", "WaitTimer(11)", "code_8b10b.Encoder", "ECCDecoder(4)", "wishbone.SRAM(16bit)"]
+
+
+def record_memory_reset_probe(seed):
+    """one fixed design - a write-first single-port memory in a clock domain WITH reset - driven with reset pulses: the
+    reference simulator restores the memory image and the read address on reset, the Verilog template does not"""
+    def build():
+        from migen import Module, ClockDomain, Memory
+        m = Module()
+        m.clock_domains += ClockDomain("sys")
+        mem = Memory(4, 4, init=[1, 2, 3, 4], name="mem")
+        port = mem.get_port(write_capable=True)
+        m.specials += mem, port
+        return m, {"sys": 10}
+    tr = build_trace(build, "%s/probe" % seed, 40, True, label="memory + reset probe", reset_memories=True)
+    tr["memfeat"] = "reset-of-memory-domain"
+    tr["seed"] = seed
+    return tr
+
+
+def record_corpus(job):
+    name, seed, cycles, regular_comb = job
+    try:
+        tr = with_timeout(lambda: build_trace(corpus()[name], "%s/%s" % (seed, name), cycles, regular_comb,
+                                              label="%s" % name), 300)
+    except Unsupported as ex:
+        return {"skip": str(ex), "label": name}
+    tr["name"] = name
     tr["seed"] = seed
     return tr
